@@ -260,6 +260,27 @@ def one_case(ctx, prog, vec=None, label="gen"):
         per_prior = [p.value_for(u, ignore_prior_limits=True) for p, u in zip(model.priors_ordered_by_id, units)]
         if [f2h(x) for x in per_prior] != [f2h(x) for x in phys]:
             ctx.fail("C01-unit-vector", "vector_from_unit_vector is not the per-prior map in parameter order", case | {"units": units})
+        # the same values supplied *without* asking to ignore limits: every value lies strictly inside its own prior's
+        # limits (it is that prior's quantile of a unit value in (0.05, 0.95)), so - assertions aside - the same instance
+        # is built; a limit check that pairs values with other priors than they are assigned to shows here
+        inside = all(p.lower_limit < x < p.upper_limit for p, x in zip(model.priors_ordered_by_id, phys))
+        if inside:
+            try:
+                i_chk = model.instance_from_vector(phys, ignore_assertions=True) if "ignore_assertions" in model.instance_from_vector.__code__.co_varnames \
+                    else model.instance_from_vector(phys)
+                d2 = X.inst_diff(X.canon_inst(X.inst_of(i_chk)), b, 0)
+                ctx.hit("vector-route-with-limit-check")
+                if d2:
+                    ctx.fail("C01-unit-route", "the physical-vector route with and without the limit check gives different instances",
+                             case | {"units": units}, {"diff_at": d2[0]})
+            except Exception as e2:  # noqa
+                from autofit import exc as _exc
+                if isinstance(e2, _exc.PriorLimitException):
+                    ctx.fail("C01-values-checked-against-other-priors",
+                             "a vector whose every value lies inside the limits of the prior it is assigned to is rejected by the limit check "
+                             "of instance_from_vector", case | {"units": units}, {"vector": [float(x) for x in phys]})
+                else:
+                    ctx.hit("vector-route-with-limit-check-raised:" + type(e2).__name__)
     except Exception as e:
         ctx.hit("unit-route-raised:" + type(e).__name__)
 
